@@ -133,15 +133,61 @@ Qed.
 
 (* ---------- the zero run the printer compresses ---------- *)
 
-Lemma zero_span_decomp g0 g1 g2 g3 g4 g5 g6 g7 :
-  let G := [g0; g1; g2; g3; g4; g5; g6; g7] in
+(* the loop only looks at which segments are zero *)
+Fixpoint zero_span_b (bs : list bool) (i : nat) (longest current : nat * nat) : nat * nat :=
+  match bs with
+  | [] => longest
+  | b :: rest =>
+      if b then
+        let cur := (if Nat.eqb (snd current) 0 then i else fst current, S (snd current)) in
+        let lon := if Nat.ltb (snd longest) (snd cur) then cur else longest in
+        zero_span_b rest (S i) lon cur
+      else zero_span_b rest (S i) longest (O, O)
+  end.
+
+Definition zmask (G : list Z) : list bool := map (fun g => g =? 0) G.
+
+Lemma zero_span_mask G : forall i l c, zero_span G i l c = zero_span_b (zmask G) i l c.
+Proof. induction G as [|g G IH]; intros i l c; [reflexivity|]. cbn [zmask map zero_span zero_span_b]. destruct (g =? 0); apply IH. Qed.
+
+(* all 256 zero patterns: the span lies inside the address and covers zero segments only *)
+Lemma zero_span_b_ok b0 b1 b2 b3 b4 b5 b6 b7 :
+  let B := [b0; b1; b2; b3; b4; b5; b6; b7] in
+  let '(start, len) := zero_span_b B O (O, O) (O, O) in
+  Nat.leb (start + len) 8 = true /\ forallb (fun b => b) (firstn len (skipn start B)) = true.
+Proof. destruct b0, b1, b2, b3, b4, b5, b6, b7; vm_compute; split; reflexivity. Qed.
+
+Lemma firstn_map' {A B} (f : A -> B) n l : firstn n (map f l) = map f (firstn n l).
+Proof. revert l; induction n; intros [|x l]; cbn; try reflexivity. rewrite IHn. reflexivity. Qed.
+
+Lemma skipn_map' {A B} (f : A -> B) n l : skipn n (map f l) = map f (skipn n l).
+Proof. revert l; induction n; intros [|x l]; cbn; try reflexivity. apply IHn. Qed.
+
+Lemma skipn_skipn' {A} n m (l : list A) : skipn n (skipn m l) = skipn (m + n) l.
+Proof. revert l; induction m; intros l; cbn; [reflexivity|]. destruct l; [destruct n; reflexivity | apply IHm]. Qed.
+
+Lemma all_zero_repeat L : forallb (fun b => b) (zmask L) = true -> L = repeat 0 (length L).
+Proof.
+  induction L as [|g L IH]; intros H; [reflexivity|]. cbn [zmask map forallb] in H.
+  apply andb_true_iff in H. destruct H as [H1 H2]. apply Z.eqb_eq in H1. subst g.
+  cbn [length repeat]. f_equal. apply IH. exact H2.
+Qed.
+
+Lemma zero_span_decomp G : length G = 8%nat ->
   let '(start, len) := zero_span G O (O, O) (O, O) in
   G = firstn start G ++ repeat 0 len ++ skipn (start + len) G /\ (start + len <= 8)%nat.
 Proof.
-  cbv zeta. unfold zero_span.
-  destruct (Z.eqb_spec g0 0); destruct (Z.eqb_spec g1 0); destruct (Z.eqb_spec g2 0); destruct (Z.eqb_spec g3 0);
-  destruct (Z.eqb_spec g4 0); destruct (Z.eqb_spec g5 0); destruct (Z.eqb_spec g6 0); destruct (Z.eqb_spec g7 0);
-  cbn; subst; (split; [reflexivity | lia]).
+  intros Hl. rewrite zero_span_mask.
+  destruct G as [|g0 [|g1 [|g2 [|g3 [|g4 [|g5 [|g6 [|g7 [|? ?]]]]]]]]]; try discriminate.
+  pose proof (zero_span_b_ok (g0 =? 0) (g1 =? 0) (g2 =? 0) (g3 =? 0) (g4 =? 0) (g5 =? 0) (g6 =? 0) (g7 =? 0)) as H.
+  cbv zeta in H. set (G := [g0; g1; g2; g3; g4; g5; g6; g7]) in *.
+  change [g0 =? 0; g1 =? 0; g2 =? 0; g3 =? 0; g4 =? 0; g5 =? 0; g6 =? 0; g7 =? 0] with (zmask G) in H.
+  destruct (zero_span_b (zmask G) O (O, O) (O, O)) as [start len].
+  destruct H as [Hle Hz]. apply Nat.leb_le in Hle. split; [|exact Hle].
+  unfold zmask in Hz. rewrite skipn_map', firstn_map' in Hz. apply all_zero_repeat in Hz.
+  rewrite firstn_length, skipn_length in Hz. replace (Nat.min len (length G - start)) with len in Hz by (unfold G; cbn [length]; lia).
+  rewrite <- (firstn_skipn start G) at 1. f_equal.
+  rewrite <- (firstn_skipn len (skipn start G)) at 1. rewrite skipn_skipn'. f_equal. exact Hz.
 Qed.
 
 (* ---------- the theorem ---------- *)
@@ -187,7 +233,7 @@ Proof.
     rewrite parse_ip_mapped_text by (unfold octet; lia).
     do 2 f_equal. repeat f_equal; lia.
   - (* longest zero run *)
-    pose proof (zero_span_decomp g0 g1 g2 g3 g4 g5 g6 g7) as D. cbv zeta in D.
+    pose proof (zero_span_decomp [g0; g1; g2; g3; g4; g5; g6; g7] eq_refl) as D.
     set (G := [g0; g1; g2; g3; g4; g5; g6; g7]) in *.
     destruct (zero_span G O (O, O) (O, O)) as [start len].
     destruct D as [DG Dle].
@@ -199,17 +245,18 @@ Proof.
       assert (LH : length H = start) by (unfold H; rewrite firstn_length; unfold G; cbn [length]; lia).
       assert (LT : length T = (8 - (start + len))%nat) by (unfold T; rewrite skipn_length; unfold G; cbn [length]; lia).
       assert (Stop2 : stop (58%N :: 58%N :: fmt_subslice T)) by (right; eexists; reflexivity).
-      unfold parse_ip.
-      assert (N4 : read_ipv4_addr (fmt_subslice H ++ ch_colon :: ch_colon :: fmt_subslice T) = None).
+      unfold parse_ip, ch_colon.
+      assert (N4 : read_ipv4_addr (fmt_subslice H ++ 58%N :: 58%N :: fmt_subslice T) = None).
       { destruct H as [|h0 H'] eqn:EH.
         - cbn [fmt_subslice app]. apply read_ipv4_colon.
         - apply fmt_first_none; [discriminate | exact HH | exact Stop2]. }
       rewrite N4. unfold read_ipv6_addr.
       rewrite (read_groups_fmt H 8 _ HH ltac:(lia) Stop2).
       replace (Nat.eqb (length H) 8) with false by (symmetry; apply Nat.eqb_neq; lia).
-      unfold ch_colon. cbv iota.
+      cbv iota.
       rewrite <- (app_nil_r (fmt_subslice T)).
-      rewrite (read_groups_fmt T _ [] HT ltac:(lia) ltac:(left; reflexivity)).
+      cbv zeta.
+      rewrite (read_groups_fmt T (8 - (length H + 1)) [] HT ltac:(lia) ltac:(left; reflexivity)).
       replace (8 - length H - length T)%nat with len by lia.
       rewrite <- DG. reflexivity.
     + unfold parse_ip.
@@ -235,7 +282,7 @@ Proof.
   cbv zeta. cbn [octets_of_bytes map segments_of_octets length]. split; [reflexivity|]. split.
   - unfold u16. repeat constructor; lia.
   - cbn [octets_of_segments bytes_of_octets map].
-    repeat (f_equal; [lia|]). reflexivity.
+    repeat (apply (f_equal2 (@cons N)); [lia|]). reflexivity.
 Qed.
 
 Theorem ntop_pton_roundtrip_v6 b :
